@@ -51,6 +51,7 @@ FileClauses ==
     \cup C05_File_Failed(runs.separate.f1, FALSE) \cup C05_File_Failed(runs.all.f1, FALSE)
     \cup C05_File_Failed(runs.all.f2, FALSE)
     \cup C05_BestMode_Failed(runs.best.main, runs.all.f1)
+    \cup C05_BestOfPasses_Failed(runs.best.main, runs.all.main, runs.all.f1, runs.all.f2)
 Inv_C05 == pc = "done" => FileClauses = {}
 \* the relations among modes; the gap clause is about Overlap, the pairs clauses are trivial on tokens
 Inv_C08 == pc = "done" => C08_Failed(runs, MaxDiff) \subseteq {"reference_gap_at_most_maxDifference"}
